@@ -666,10 +666,30 @@ fn match_with_rule<'src>(
                     asm::RuleParameterType::Integer(_) =>
                     {
                         let mut result = vec![];
+                        let mut end_without_lookahead = None;
 
                         // Try both with and without lookahead character
                         for enable_lookahead in [false, true]
                         {
+                            // When both ways read the same argument text, what
+                            // follows is the same too: going on once is enough
+                            // (otherwise the work doubles with every parameter)
+                            let argument_end = get_expr_argument_end(
+                                rule,
+                                walker.clone(),
+                                part_index,
+                                enable_lookahead);
+
+                            if !enable_lookahead
+                            {
+                                end_without_lookahead = argument_end;
+                            }
+                            else if argument_end.is_some() &&
+                                argument_end == end_without_lookahead
+                            {
+                                continue;
+                            }
+
                             result.extend(
                                 match_with_expr(
                                     defs,
@@ -778,6 +798,24 @@ fn match_with_expr<'src>(
         at_pattern_part + 1,
         nesting,
         &mut match_so_far)
+}
+
+
+fn get_expr_argument_end<'src>(
+    rule: &asm::Rule,
+    mut walker: syntax::Walker<'src>,
+    at_pattern_part: usize,
+    enable_lookahead: bool)
+    -> Option<usize>
+{
+    let maybe_expr = parse_with_lookahead(
+        &rule.pattern,
+        at_pattern_part,
+        enable_lookahead,
+        &mut walker,
+        |walker| expr::parse_optional(walker))?;
+
+    maybe_expr.map(|_| walker.get_cursor_index())
 }
 
 
